@@ -18,8 +18,9 @@ var ws_log = log.NewLog("engine:ws")
 type websocket struct {
 	Transport
 
-	socket *types.WebSocketConn
-	mu     sync.Mutex
+	socket  *types.WebSocketConn
+	mu      sync.Mutex
+	reading sync.Once
 }
 
 // WebSocket transport
@@ -51,10 +52,21 @@ func (w *websocket) Construct(ctx *types.HttpContext) {
 		w.OnClose()
 	})
 
-	go w.message()
-
 	w.SetWritable(true)
 	w.SetPerMessageDeflate(nil)
+}
+
+// On registers listeners. Reading from the connection starts with the first
+// "packet" listener: the owner (a new session, or MaybeUpgrade for an upgrade
+// candidate) attaches its listeners only after the transport exists, and a
+// packet read before that, such as a client's probe sent right after the
+// connection opened, would be emitted to nobody and lost.
+func (w *websocket) On(evt types.EventName, listeners ...types.Listener) error {
+	err := w.Transport.On(evt, listeners...)
+	if evt == "packet" && len(listeners) > 0 {
+		w.reading.Do(func() { go w.message() })
+	}
+	return err
 }
 
 // Transport name
